@@ -694,9 +694,23 @@ func (x *Exec) noMergeFor(s ast.Stmt) bool {
 
 func (x *Exec) execStmt(st *State, s ast.Stmt) *State {
 	if st != nil && x.spec == 0 && x.noSafety == 0 {
+		if c := x.eng.cf.Contracts[x.qual]; c != nil && len(c.GhostBefore) > 0 && !x.infeasible(st) {
+			switch s.(type) {
+			case *ast.AssignStmt, *ast.ExprStmt, *ast.IncDecStmt, *ast.DeclStmt, *ast.ReturnStmt, *ast.BranchStmt, *ast.SendStmt:
+				txt := x.eng.srcText(s)
+				for _, ga := range c.GhostBefore {
+					if strings.HasPrefix(txt, ga.Anchor) {
+						x.anchorHits["before:"+ga.Anchor]++
+						x.applyEffect(st, st, ga.Eff, s.Pos(), x.qual)
+					}
+				}
+			}
+		}
+	}
+	if st != nil && x.spec == 0 && x.noSafety == 0 {
 		if c := x.eng.cf.Contracts[x.frame().qual]; c != nil && len(c.AssertBefore) > 0 && !x.infeasible(st) {
 			switch s.(type) {
-			case *ast.AssignStmt, *ast.ExprStmt, *ast.IncDecStmt, *ast.DeclStmt, *ast.ReturnStmt, *ast.BranchStmt:
+			case *ast.AssignStmt, *ast.ExprStmt, *ast.IncDecStmt, *ast.DeclStmt, *ast.ReturnStmt, *ast.BranchStmt, *ast.SendStmt:
 				txt := x.eng.srcText(s)
 				for _, aa := range c.AssertBefore {
 					if strings.HasPrefix(txt, aa.Anchor) {
@@ -716,7 +730,7 @@ func (x *Exec) execStmt(st *State, s ast.Stmt) *State {
 	if out != nil && x.spec == 0 && x.noSafety == 0 {
 		if c := x.eng.cf.Contracts[x.frame().qual]; c != nil && len(c.GhostAfter) > 0 {
 			switch s.(type) {
-			case *ast.AssignStmt, *ast.ExprStmt, *ast.IncDecStmt, *ast.DeclStmt:
+			case *ast.AssignStmt, *ast.ExprStmt, *ast.IncDecStmt, *ast.DeclStmt, *ast.SendStmt:
 				txt := x.eng.srcText(s)
 				for _, ga := range c.GhostAfter {
 					if strings.HasPrefix(txt, ga.Anchor) {
@@ -1550,7 +1564,10 @@ func (x *Exec) assignedIn(n ast.Node) *frameInfo {
 	var gAfter []*GhostAnchor
 	if len(x.frames) > 0 {
 		if c := x.eng.cf.Contracts[x.frame().qual]; c != nil {
-			gAfter = c.GhostAfter
+			gAfter = append(append([]*GhostAnchor{}, c.GhostAfter...), c.GhostBefore...)
+		}
+		if c := x.eng.cf.Contracts[x.qual]; c != nil && x.frame().qual != x.qual {
+			gAfter = append(gAfter, c.GhostBefore...)
 		}
 	}
 	ghostWrites := func(st ast.Stmt) {
@@ -1579,6 +1596,12 @@ func (x *Exec) assignedIn(n ast.Node) *frameInfo {
 	ast.Inspect(n, func(n ast.Node) bool {
 		switch s := n.(type) {
 		case *ast.ExprStmt:
+			ghostWrites(s)
+		case *ast.ReturnStmt:
+			ghostWrites(s)
+		case *ast.BranchStmt:
+			ghostWrites(s)
+		case *ast.SendStmt:
 			ghostWrites(s)
 		case *ast.DeclStmt:
 			ghostWrites(s)
@@ -1713,6 +1736,32 @@ func (x *Exec) callFrame(c *ast.CallExpr, fi *frameInfo) {
 			callee, _ = sel.Obj().(*types.Func)
 		} else {
 			callee, _ = x.eng.info.Uses[f.Sel].(*types.Func)
+		}
+	}
+	if callee != nil && callee.Pkg() != nil && callee.Pkg().Path() == "sync/atomic" && len(c.Args) > 0 {
+		// atomic operation on &p.f: a write of that field (see lib model)
+		if ue, ok := unparen(c.Args[0]).(*ast.UnaryExpr); ok && ue.Op == token.AND {
+			if sel, ok := unparen(ue.X).(*ast.SelectorExpr); ok {
+				if t := x.eng.info.TypeOf(sel.X); t != nil {
+					if p, isPtr := t.Underlying().(*types.Pointer); isPtr {
+						key := structName(p.Elem()) + "." + sel.Sel.Name
+						if strings.HasPrefix(callee.Name(), "Load") {
+							return
+						}
+						if id, isId := unparen(sel.X).(*ast.Ident); isId {
+							if v, isVar := x.eng.info.Uses[id].(*types.Var); isVar && !v.IsField() && v.Parent() != x.eng.pkg.Types.Scope() {
+								if fi.instW == nil {
+									fi.instW = map[string][]*types.Var{}
+								}
+								fi.instW[key] = append(fi.instW[key], v)
+								return
+							}
+						}
+						fi.heapKeys[key] = true
+						return
+					}
+				}
+			}
 		}
 	}
 	if callee != nil {
